@@ -1615,14 +1615,105 @@ func (x *c12ctx) judgeStore(S *ssa.Store, f *types.Var, upper bool) (c12storeVer
 		if !boundWriter {
 			cx.extra = x.boundFacts(pr, E, root)
 		}
-		if !x.k.proveLift(fn, E, []lin{pr.fieldAt(E, root, x.fMin).sub(val)}, cx, 3, &v.trail) {
-			v.lowerOK = false
+		// a goal not provable at the store itself may be enforced afterwards by a
+		// clamp written as a guarded assignment (`if w < min { w = min }`): the
+		// stored value then only survives to a return across the guard's other edge
+		t0 := len(v.trail)
+		lowGoal := pr.fieldAt(E, root, x.fMin).sub(val)
+		if !x.k.proveLift(fn, E, []lin{lowGoal}, cx, 3, &v.trail) {
+			if !boundWriter && x.survivesGuarded(pr, S, f, lowGoal, cx) {
+				v.trail = v.trail[:t0]
+			} else {
+				v.lowerOK = false
+			}
 		}
-		if upper && !x.k.proveLift(fn, E, []lin{val.sub(pr.fieldAt(E, root, x.fMax))}, cx, 3, &v.trail) {
-			v.upOK = false
+		if upper {
+			t0 = len(v.trail)
+			upGoal := val.sub(pr.fieldAt(E, root, x.fMax))
+			if !x.k.proveLift(fn, E, []lin{upGoal}, cx, 3, &v.trail) {
+				if !boundWriter && x.survivesGuarded(pr, S, f, upGoal, cx) {
+					v.trail = v.trail[:t0]
+				} else {
+					v.upOK = false
+				}
+			}
 		}
 	}
 	return v, true
+}
+
+// survivesGuarded: the goal `goal <= 0` about the value S stores in field f holds
+// on every path on which that value survives from S to a return (no store to f,
+// no call that may store it): each such path crosses a branch edge whose
+// condition, read with S's value in place of the loads of the stored location
+// that can only execute after S, implies the goal together with the facts valid
+// at S.  This is the clamp-by-assignment form of `w = max(w, lo)`:
+// `if recv.w < lo { recv.w = lo }` – the clamping store is an event (judged on
+// its own), the other edge carries `recv.w >= lo` for the surviving value.
+func (x *c12ctx) survivesGuarded(pr *c12pr, S *ssa.Store, f *types.Var, goal lin, base *linCtx) bool {
+	fn := S.Parent()
+	loc, ok := c12locOfAddr(S.Addr)
+	if !ok || pr.fm.hasDefer {
+		return false
+	}
+	isEv := func(i ssa.Instruction) bool { return x.isEvent(i, f) }
+	after := map[ssa.Instruction]bool{}
+	for _, in := range reachFrom(fn, S, isEv, nil) {
+		after[in] = true
+		// values of different loop iterations would be mixed up: no loops in the region
+		if pr.fm.idx[in] == 0 && c12loopHeader(in.Block()) {
+			return false
+		}
+	}
+	// loads of the stored location that, on a path from S, can only see S's value
+	sees := map[ssa.Value]bool{}
+	for _, L := range pr.fm.loads {
+		if l, ok := c12locOfAddr(L.X); ok && c12sameLoc(l, loc) && after[L] && !pr.fm.after(L, S) {
+			sees[L] = true
+		}
+	}
+	if len(sees) == 0 {
+		return false
+	}
+	subst := map[ssa.Value]ssa.Value{}
+	if base != nil {
+		for a, b := range base.subst {
+			subst[a] = b
+		}
+	}
+	for L := range sees {
+		if r := pr.lp.canon(L); sees[r] {
+			subst[r] = S.Val
+		}
+	}
+	memo := map[ssa.Value]map[bool]bool{}
+	implies := func(cond ssa.Value, pol bool) bool {
+		if r, ok := memo[cond][pol]; ok {
+			return r
+		}
+		if memo[cond] == nil {
+			memo[cond] = map[bool]bool{}
+		}
+		memo[cond][pol] = false
+		cx := &linCtx{at: S, subst: subst}
+		if base != nil {
+			cx.extra = append(cx.extra, base.extra...)
+		}
+		facts := pr.condFactsX(cond, pol, cx)
+		if len(facts) == 0 {
+			return false
+		}
+		cx.extra = append(cx.extra, facts...)
+		r := pr.proveAny(S, []lin{goal.clone()}, cx, 0)
+		memo[cond][pol] = r
+		return r
+	}
+	for _, in := range reachFrom(fn, S, isEv, implies) {
+		if _, isRet := in.(*ssa.Return); isRet {
+			return false
+		}
+	}
+	return true
 }
 
 // judgeHelper: S stores the result of g(recv, …), g an in-scope function called
